@@ -562,7 +562,8 @@ func decodeKeyCharByUnicodeRuneStream(s *Stream) ([]byte, error) {
 	const defaultOffset = 4
 	const surrogateOffset = 6
 
-	if s.cursor+defaultOffset >= s.length {
+	for s.cursor+defaultOffset >= s.length {
+		// one read may deliver fewer bytes than the escape needs
 		if !s.read() {
 			return nil, errors.ErrInvalidCharacter(s.char(), "escaped unicode char", s.totalOffset())
 		}
@@ -571,8 +572,7 @@ func decodeKeyCharByUnicodeRuneStream(s *Stream) ([]byte, error) {
 	r := unicodeToRune(s.buf[s.cursor : s.cursor+defaultOffset])
 	if utf16.IsSurrogate(r) {
 		s.cursor += defaultOffset
-		if s.cursor+surrogateOffset >= s.length {
-			s.read()
+		for s.cursor+surrogateOffset >= s.length && s.read() {
 		}
 		if s.cursor+surrogateOffset >= s.length || s.buf[s.cursor] != '\\' || s.buf[s.cursor+1] != 'u' {
 			s.cursor += defaultOffset - 1
@@ -612,9 +612,12 @@ RETRY:
 	case 'u':
 		return decodeKeyCharByUnicodeRuneStream(s)
 	case nul:
+		s.cursor-- // back onto the sentinel: the refill continues from there
 		if !s.read() {
 			return nil, errors.ErrInvalidCharacter(s.char(), "escaped char", s.totalOffset())
 		}
+		c = s.buf[s.cursor]
+		s.cursor++
 		goto RETRY
 	default:
 		return nil, errors.ErrUnexpectedEndOfJSON("struct field", s.totalOffset())
